@@ -1,4 +1,5 @@
 //! twmon — runtime monitors for textwrap properties C01..C20.
+#![cfg_attr(not(all(feature = "uw", feature = "ulb", feature = "smawk")), allow(unused_imports, unused_mut, unused_variables, dead_code))]
 pub mod case;
 pub mod cli;
 pub mod gen;
